@@ -179,7 +179,7 @@ def _build_nested(n, ks, gs):
 NEST_N = 3 if THOROUGH else 2
 
 
-@cond(timeout=900, encodes=ENC,
+@cond(timeout=3000 if THOROUGH else 900, encodes=ENC,
       bound="child sequences of length <= 2 (quick) / 3 (thorough) over a 4-tag alphabet, one of the children optionally holding one nested "
             "element of any of the 4 tags (PowerPoint-authored subtrees such as p:nvPr/p:extLst or c:dLbl/c:txPr); one successor tag or "
             "none; operation: insert_element_before / remove_all of the successor tag / ZeroOrOne get_or_add (choice variable): only "
